@@ -397,6 +397,27 @@ fn main() {
             }
             if diffs.is_empty() { 0 } else { 1 }
         },
+        "planscan" => {
+            // how many runs of a batch contain an input with the given substring (workload reach)
+            let c = corpus::harvest(Path::new(&a.get("repo", "/repo")));
+            let needle = a.get("grep", "");
+            let thorough = a.get("tier", "quick") == "thorough";
+            let (mut runs_hit, mut inputs_hit, mut shown) = (0u64, 0u64, 0);
+            for r in 0..a.u64("runs", 1000) {
+                let pl = run::plan(prng::run_seed(verif_seed(&a), r), &c.inputs, thorough);
+                let hits: Vec<&String> = pl.scenario.inputs.iter().filter(|t| t.contains(&needle)).collect();
+                if !hits.is_empty() {
+                    runs_hit += 1;
+                    inputs_hit += hits.len() as u64;
+                    if shown < 3 {
+                        shown += 1;
+                        println!("run {r}: {}", hits[0].replace('\n', " ").chars().take(200).collect::<String>());
+                    }
+                }
+            }
+            println!("runs with a match: {runs_hit}, matching inputs: {inputs_hit}");
+            0
+        },
         "plan" => {
             // print the (PRNG-free) scenario that run R of a batch with seed S executes
             let c = corpus::harvest(Path::new(&a.get("repo", "/repo")));
@@ -433,6 +454,7 @@ fn main() {
             println!("template idents (type-like): {:?}", c.template_idents.0);
             println!("template idents (value-like): {:?}", c.template_idents.1);
             println!("parameter-like words: {:?}", corpus::param_words(Path::new(&a.get("repo", "/repo"))));
+            println!("rarely exemplified parameter-like words (probe runs): {:?}", gen::rare_words());
             if a.map.contains_key("dump") {
                 for i in &c.inputs {
                     println!("// {} [{}]\n{}\n", i.origin, i.name, i.text);
